@@ -146,10 +146,10 @@ def pair_unit(c):
 # structural repetition ----------------------------------------------------------
 REP_KINDS = ["same_twprge_lines", "different_twprge_lines", "twprge_only", "sections", "section_list", "lots", "lot_list", "aliquots",
              "aliquot_chain", "aliquot_words", "desc_str_tracts", "twprge_spelled", "section_keyword_list", "lot_keyword_list", "section_ranges",
-             "wide_lot_ranges", "wide_section_ranges"]
+             "wide_lot_ranges", "wide_section_ranges", "divided_wide_lot_ranges"]
 REP_TAILS = ["", "", "\nT155N-R97W Sec 1: ALL", ", T155N-R97W", "\nT155N-R97W"]
 REP_CASE = st.fixed_dictionaries({"config": st.sampled_from([""] * 6 + MODE_CONFIGS), "rep": st.sampled_from(REP_KINDS), "sep": st.sampled_from(["\n", ", ", " ", "; ", ",\n", "\n\n", " and ", " & "]),
-                                  "k": st.integers(2, 60), "var": st.integers(0, 5), "tail": st.sampled_from(REP_TAILS)})
+                                  "k": st.integers(2, 60), "var": st.integers(0, 35), "tail": st.sampled_from(REP_TAILS)})
 
 
 def rep_text(c):
@@ -191,7 +191,14 @@ def rep_text(c):
             items.append(["L1-999", "Lots 1-999", "L999-1", "Lt 1 - 998", "Lot 2 thru 999", "L1-500"][c["var"] % 6])
         elif kind == "wide_section_ranges":
             items.append(["Sec 1-99: ALL", "Sec 99 - 1: NE/4", "Sections 1 thru 99: Lot 1", "Sec 1-36: ALL", "§ 1 - 99: N/2", "Sec 2-98: Lots 1 - 99"][c["var"] % 6])
+        elif kind == "divided_wide_lot_ranges":
+            # an aliquot in front of a long lot list divides every lot up to the next 'Lot' word
+            items.append(["1-999", "2 - 999", "999-1", "1 thru 998", "Lots 1-999", "1-500"][c["var"] % 6])
     tail = c.get("tail", "")
+    if kind == "divided_wide_lot_ranges":
+        head = ["N/2 of L", "NE/4 of Lots ", "W½ of Lot ", "N/2NE/4 of L", "S/2 of the E/2 of Lots ", "N2 L"][(c["var"] // 6 + c["k"]) % 6]
+        text = "T154N-R97W Sec 14: " + head + (sep if sep.strip() else ",").join(items)
+        return text[:MAXLEN - len(tail)] + tail
     if kind == "wide_lot_ranges":
         text = "T154N-R97W Sec 14: " + (sep if sep.strip() else ",").join(items)
         return text[:MAXLEN - len(tail)] + tail
